@@ -230,6 +230,8 @@ func (msg *Message) RESPBytes() ([]byte, error) {
 			return nil, err
 		}
 		respBytes.Write(bytes)
+	default:
+		return nil, fmt.Errorf(errorUnknownMessageType, msg.Type)
 	}
 
 	return respBytes.Bytes(), nil
